@@ -64,6 +64,29 @@ Laplacian with conditions B, ``G[B]`` = squared gradient):
 
 Where R3 is not comparable the case still compares R1, R2 and REF (outcome class says which).
 
+BC assignments of part "classes" (values are bumped by 0.1 on a second non-periodic axis, expression
+conditions depend on ``t`` and on the other coordinate; periodic axes get "periodic"):
+default (None); "auto_periodic_dirichlet"; value 0 / derivative 0; mixed(const 0) / value 0; value 1.2 /
+derivative 0.5; derivative 1.2 / value 0.4; mixed / curvature; value_expression(t) /
+derivative_expression(t); only one axis given (the rest left to the default the class adds); only one
+*side* of an axis given (refused by py-pde, see below); on fully periodic grids: default, the string,
+every axis spelled out.  Pairs (first operator | second operator): value 0 | derivative 0 and reverse,
+value 1.2 | derivative 1.2 and reverse, value 0.8 | curvature 0.8 (same value, different class - the D1
+family), value 1.2 | value 0.4, (value 1.2 / derivative 0.5) | (derivative 1.2 / value 0.5),
+value_expression(t) | derivative 0.5 and reverse, default | value 1.2, value 1.2 | "auto_periodic_neumann",
+(mixed / curvature) | value 1.2 (inhomogeneous second conditions - the D9 family).
+
+Expression conditions given as a dict are re-parsed by sympy in every call of the field API (54 ms per
+``evolution_rate``); for these cases the equation under exhaustive test receives the same conditions
+parsed once (``grid.get_boundary_conditions(spec)``, a documented form of ``bc``) and a second equation
+built from the dict is compared with it on the zero and the generic states (the conversion of the
+specification does not depend on the state).
+
+Loud refusals that are not violations (counted as ``refusals``): a specification that names only one
+side of an axis (``bc={"x-": {"value": 1.2}}``) makes every route raise ``BCDataError`` because the
+default ``"*": "auto_periodic_neumann"`` added by ``set_default_bc`` cannot complete half an axis;
+expression conditions for vector operands (``divergence`` with a time dependent general ``bc``).
+
 Each (class, parameter set, grid, BC assignment) is one case with fresh grid, equation and field
 objects; the method cache of the numba backend is emptied at the start of a case so that every
 violation replays from its own minimal case (``only`` = (t, state)).
@@ -116,10 +139,10 @@ CLASSES = {
 GRIDS_QUICK = {
     "1d": {1: ["cart", [[0, 2]], [4], [False]], 2: ["cart", [[0, 1]], [2], [False]]},
     "1d-periodic": {1: ["cart", [[-1, 2]], [4], [True]], 2: ["cart", [[-1, 0.5]], [2], [True]]},
-    "2d": {1: ["cart", [[0, 1], [-1, 3]], [2, 2], [True, False]], 2: ["cart", [[0, 1], [-1, 1]], [2, 1], [True, False]]},
+    "2d": {1: ["cart", [[0, 1], [-1, 3]], [2, 2], [True, False]], 2: ["cart", [[0, 0.5], [-1, 1]], [1, 2], [True, False]]},
     "polar": {1: ["polar", 2, 4], 2: ["polar", 1, 2]},
     "spherical-hole": {1: ["sph", [0.5, 2.5], 4], 2: ["sph", [0.5, 1.5], 2]},
-    "cylindrical": {1: ["cyl", 2, [0, 1], [2, 2], False], 2: ["cyl", 1, [0, 1], [1, 2], False]},
+    "cylindrical": {1: ["cyl", 2, [0, 1], [2, 2], False], 2: ["cyl", 1, [0, 0.5], [2, 1], True]},
 }
 GRIDS_THOROUGH = {
     "1d": {1: ["cart", [[0, 3]], [6], [False]], 2: ["cart", [[0, 2]], [4], [False]]},
@@ -130,7 +153,7 @@ GRIDS_THOROUGH = {
     "cylindrical": {1: ["cyl", 2, [0, 1.5], [2, 3], False], 2: ["cyl", 2, [0, 1], [2, 2], False]},
     # additional members of the families (8 degrees of freedom, hole / periodic z, y periodic)
     "1d#8": {1: ["cart", [[0, 4]], [8], [False]], 2: None},
-    "2d#yx": {1: ["cart", [[0, 2], [0, 3]], [2, 4], [False, True]], 2: ["cart", [[0, 2], [0, 1.5]], [2, 2], [False, True]]},
+    "2d#yx": {1: ["cart", [[0, 2], [0, 3]], [2, 3], [False, True]], 2: ["cart", [[0, 2], [0, 1.5]], [2, 2], [False, True]]},
     "cylindrical#hole-periodic": {1: ["cyl", [1, 2], [-1, 1], [2, 4], True], 2: ["cyl", [1, 2], [-1, 1], [2, 2], True]},
     "polar#hole": {1: ["polar", [1, 3], 5], 2: ["polar", [1, 3], 4]},
     "spherical": {1: ["sph", 2, 5], 2: ["sph", 2, 4]},
@@ -160,7 +183,6 @@ SIDES = {
     "vexpr_t": ({"value_expression": "1.1 + 0.5*t@"}, {"value_expression": "0.7 - 0.25*t"}, False, True),
     # conditions used by the PDE grammar
     "der0.4/val0.3": (D(0.4), V(0.3), False, False),
-    "der-0.6/der0.9": (D(-0.6), D(0.9), False, False),
     "vexpr_t/der0.5": ({"value_expression": "1.1 + 0.5*t@"}, D(0.5), False, True),
 }
 # whole-grid specifications given as a string / special forms
@@ -493,8 +515,9 @@ def class_case(case):
     if do3:
         text = dict(eq.expressions) if hasattr(eq, "expressions") else {"c": eq.expression}
         eq3 = PDE(text, bc=bc_spec(geo, ka)[0])
-        rhs3 = {b: eq3.make_pde_rhs(state0, backend=b) for b in ("numpy", "numba")}
-        rhs3["evolution_rate"] = lambda d, t: eq3.evolution_rate(mkstate(d.reshape(-1)), t).data
+        # (the numpy backend's rhs of a PDE is the wrapper around evolution_rate already compared as R2)
+        rhs3 = {"numba rhs": eq3.make_pde_rhs(state0, backend="numba"),
+                "evolution_rate": lambda d, t: eq3.evolution_rate(mkstate(d.reshape(-1)), t).data}
     famsig = f"{name}|{fam}|{_bc_family(case)}"
     viol, seen, n = [], set(), 0
     jit = core.mode() == "J"
@@ -604,11 +627,12 @@ PGRIDS_QUICK = {
 PGRIDS_THOROUGH = {
     "1d": {1: ["cart", [[0, 3]], [6], [False]], 2: ["cart", [[0, 2]], [4], [False]]},
     "2d": {1: ["cart", [[0, 1.5], [-1, 3]], [3, 2], [True, False]], 2: ["cart", [[0, 1], [-1, 3]], [2, 2], [True, False]]},
-    "spherical-hole": {1: ["sph", [0.5, 3.5], 6], 2: ["sph", [0.5, 2.5], 4]},
+    "spherical-hole": {1: ["sph", [0.5, 3.5], 6], 2: None},
     "cylindrical": {1: ["cyl", 2, [0, 1.5], [2, 3], False], 2: None},
     "1d-periodic": {1: ["cart", [[-1, 2]], [5], [True]], 2: None},
 }
-GEN, GEN_T, SPEC_X, SPEC_Y = "val1.2/der0.5", "vexpr_t/der0.5", "der0.4/val0.3", "der-0.6/der0.9"
+# SPEC_Y mirrors GEN (same values, the other class on each side): the D1 family inside ``PDE``
+GEN, GEN_T, SPEC_X, SPEC_Y = "val1.2/der0.5", "vexpr_t/der0.5", "der0.4/val0.3", "der1.2/val0.5"
 
 
 def term_ops(tname, x):
@@ -672,9 +696,11 @@ def variant_bcs(case, geo):
         if var == "ops_v_all":
             return GEN, {"v:*": SPEC_X}
         if var == "ops_exact":
+            # the Laplacians of the equation of v get SPEC_Y; a Laplacian in the equation of u keeps GEN
+            # (equal values, different classes - two operators of one PDE object that differ only by class)
             d = {"v:laplace": SPEC_Y}
             nu = sorted(ops["u"])
-            if nu:
+            if nu and nu[0] != "laplace":
                 d[f"u:{nu[0]}"] = SPEC_X
             return GEN, d
         if var == "ops_wild_lap":
@@ -916,6 +942,11 @@ def pde_case(case):
 # ----------------------------------------------------------------------------------------------
 
 
+def compiled_case(case):
+    """mode J: dispatch to the two workers (violations carry the worker that replays them)"""
+    return class_case(case) if "cls" in case else pde_case(case)
+
+
 def class_cases(grids, seed):
     cases = []
     for fam, by_nf in grids.items():
@@ -946,7 +977,7 @@ def class_cases(grids, seed):
 def pde_cases(pgrids, seed, tier):
     cases = []
     singles = [[t] for t in TERM_ORDER]
-    lead = TERM_ORDER if tier == "thorough" else TERM_ORDER[:3]
+    lead = TERM_ORDER if tier == "thorough" else TERM_ORDER[:2]
     pairs = [[a, b] for i, a in enumerate(TERM_ORDER) for b in TERM_ORDER[i + 1 :] if a in lead]
     for fam, by_nf in pgrids.items():
         if by_nf[1] is not None:
@@ -1029,8 +1060,9 @@ def main(run):
         run.explore("checks.c10:pde_case", pcases, mode="I", part="PDE grammar (interpreted kernels)", chunksize=2, limit=1800)
     jc, jp = jit_cases(grids, pgrids, run.seed, tier)
     if not only or "jit" in only:
-        run.explore("checks.c10:class_case", jc, mode="J", part="classes (compiled)", chunksize=1, limit=2400)
-        run.explore("checks.c10:pde_case", jp, mode="J", part="PDE grammar (compiled)", chunksize=1, limit=2400)
+        # one pool round for both kinds of compiled cases; the slow grammar programs first
+        run.explore("checks.c10:compiled_case", jp + jc, mode="J", part="compiled rates (classes + grammar)", chunksize=1,
+                    limit=2400)
     run.notes["state_space"] = {
         "determining_set": "all points with support <= 3 and entries in {0,1,2,3}",
         "points_by_degrees_of_freedom": {M: n_points(M) for M in (3, 4, 5, 6, 8)},
@@ -1045,6 +1077,9 @@ def main(run):
         "not counted as a violation of C10)",
         "a PDE whose right-hand side does not contain the field (e.g. 't') returns a scalar from the compiled numba rhs "
         "instead of an array; compared by broadcasting",
+        "bc={'x-': {'value': 1.2}} (one side of an axis) given to a predefined class or to PDE raises BCDataError "
+        "('auto_periodic_neumann' not defined): set_default_bc adds '*': 'auto_periodic_neumann', which the parser pairs "
+        "with the given side and cannot resolve; all routes refuse alike (loud, counted under refusals)",
     ]
     run.assumptions += [
         "the predefined rates are polynomial maps of total degree <= 3 in the state for fixed (grid, BCs, parameters, t); "
